@@ -23,6 +23,8 @@ let () = run_lines (fun toks ->
   | ["int.abs"; z] -> hex_of_chars (Model.x_int_abs (z_of_string z))
   | ["int.rt"; z; old; tl] ->
     let (t, r) = Model.x_int_rt (z_of_string z) (z_of_string old) (chars_of_hex tl) in hex_of_chars t ^ " " ^ r3 r
+  | ["int.rtb"; base; z; old; tl] ->
+    let (t, r) = Model.x_int_rtb (z_of_string base) (z_of_string z) (z_of_string old) (chars_of_hex tl) in hex_of_chars t ^ " " ^ r3 r
   | ["int.cstr"; h] -> string_of_z (Model.x_int_of_string (chars_of_hex h))
   | ["int.seq"; n; h] ->
     let (((xs, r), e), f) = Model.x_int_seq (nat_of_int (int_of_string n)) (chars_of_hex h) in
